@@ -1,6 +1,7 @@
 package main
 
 import (
+	"os"
 	"fmt"
 	"go/types"
 	"strings"
@@ -53,6 +54,8 @@ func (x *FnExec) call(in ssa.Instruction, c *ssa.CallCommon, st *State) (Val, bo
 			args = append(args, x.value(a))
 		}
 		calleeName = "(" + typeKey(c.Value.Type()) + ")." + c.Method.Name()
+		x.curArgs = args
+		x.checkCallAsserts(calleeName, args, sigParamTypes(sig, c.Value.Type()), st)
 		if con := x.eng.cs.Funcs[calleeName]; con != nil {
 			res := x.applyContractSig(in, con, calleeName, sig, c.Value.Type(), args, st)
 			return res, true
@@ -71,6 +74,7 @@ func (x *FnExec) call(in ssa.Instruction, c *ssa.CallCommon, st *State) (Val, bo
 	for _, a := range c.Args {
 		args = append(args, x.value(a))
 	}
+	x.curArgs = args
 	callee = c.StaticCallee()
 	var bindings []ssa.Value
 	if mc, ok := c.Value.(*ssa.MakeClosure); ok {
@@ -122,6 +126,7 @@ func (x *FnExec) call(in ssa.Instruction, c *ssa.CallCommon, st *State) (Val, bo
 		callee = callee.Origin()
 	}
 	calleeName = callee.String()
+	x.checkCallAsserts(calleeName, args, sigParamTypes(callee.Signature, nil), st)
 	con := x.eng.cs.Funcs[calleeName]
 	if con == nil && callee.Synthetic != "" && strings.HasPrefix(callee.Synthetic, "wrapper") {
 		// pointer-receiver wrapper around a value-receiver method
@@ -157,6 +162,9 @@ func (x *FnExec) call(in ssa.Instruction, c *ssa.CallCommon, st *State) (Val, bo
 }
 
 func (x *FnExec) unknownCall(sig *types.Signature, st *State, name string) Val {
+	for _, a := range x.curArgs {
+		x.noteEscape(a)
+	}
 	// may panic
 	pb := x.ctx.Fresh("panics", SBool)
 	ps := st.clone()
@@ -192,6 +200,15 @@ func (x *FnExec) havocAll(st *State) {
 	// a callee cannot reach the caller's non-escaping stack variables
 	for _, l := range x.locals {
 		x.restoreCells(st, old, l)
+	}
+	// ... nor objects that were allocated for this function and whose address it never handed out
+	for _, o := range x.freshObjs {
+		if os.Getenv("GOVC_DEBUG") != "" {
+			fmt.Fprintf(os.Stderr, "havoc in %s: fresh obj %s escaped=%v\n", x.fnName(), o.addr, o.escaped)
+		}
+		if !o.escaped {
+			x.restoreCells(st, old, localAlloc{addr: o.addr, t: o.t})
+		}
 	}
 	na := x.ctx.Fresh("alloc_c", SInt)
 	x.ctx.Assert(Ge(na, st.alloc))
@@ -278,20 +295,6 @@ func (x *FnExec) applyContractSig(in ssa.Instruction, con *Contract, calleeName 
 	if imm := x.implicitModPre(con, envPre); len(imm) > 0 {
 		x.oblige(fmt.Sprintf("call%d(%s).immutable", n, short), "call-pre", "no modified location is the referent of an immutable global", st.reach, And(imm...))
 	}
-	// call-site assertions requested by the caller's contract
-	for k, ca := range x.con.CallAsserts {
-		if strings.Contains(calleeName, ca.Callee) {
-			envC := x.callerEnvAt(st)
-			// callee arguments are visible as arg0, arg1, ...
-			for i := range args {
-				if i < len(ptypes) {
-					envC.vars[fmt.Sprintf("arg%d", i)] = TVal{args[i], ptypes[i]}
-				}
-			}
-			x.oblige(fmt.Sprintf("assert%d.at_call%d(%s)", k+1, n, short), "assert", ca.Src, st.reach, envC.EvalBool(ca.E))
-			x.assertHit[k] = true
-		}
-	}
 	// 2. panics; 3. havoc. With on_panic clauses the panic state is the havocked state
 	// constrained by them (the callee's effects up to the panic), otherwise the pre-call state.
 	ptyp := ""
@@ -311,6 +314,9 @@ func (x *FnExec) applyContractSig(in ssa.Instruction, con *Contract, calleeName 
 	}
 	doHavoc := func(s *State) {
 		if con.ModAll {
+			for _, a := range args {
+				x.noteEscape(a)
+			}
 			x.havocAll(s)
 		} else {
 			for _, m := range con.Modifies {
@@ -370,14 +376,27 @@ func (x *FnExec) collectFresh(e CExpr, env *Env, newAlloc Term, out *[]Term) {
 	switch e := e.(type) {
 	case *CCall:
 		if e.Fn == "fresh" {
-			t := env.scalar(env.Eval(e.Args[0]), "fresh")
+			tv := env.Eval(e.Args[0])
+			t := env.scalar(tv, "fresh")
 			*out = append(*out, Lt(t, newAlloc))
+			if tv.T != nil {
+				if p, ok := tv.T.Underlying().(*types.Pointer); ok {
+					if _, isStruct := p.Elem().Underlying().(*types.Struct); isStruct && !isOpaque(p.Elem()) {
+						x.freshObjs = append(x.freshObjs, &freshObj{addr: t, t: p.Elem()})
+					}
+				}
+			}
 		}
 	case *CBinary:
+		if e.Op == "==>" {
+			x.collectFresh(e.Y, env, newAlloc, out)
+			return
+		}
 		if e.Op == "&&" {
 			x.collectFresh(e.X, env, newAlloc, out)
 			x.collectFresh(e.Y, env, newAlloc, out)
 		}
+		return
 	}
 }
 
@@ -601,3 +620,44 @@ func (x *FnExec) runDefers(st *State) {
 		*st = *sub
 	}
 }
+
+// checkCallAsserts: "assert call <substring> : expr" clauses of the function under
+// analysis, checked at every call whose callee name contains the substring. The callee's
+// arguments are visible as arg0, arg1, ... (receiver first).
+func (x *FnExec) checkCallAsserts(calleeName string, args []Val, ptypes []types.Type, st *State) {
+	if len(x.con.CallAsserts) == 0 {
+		return
+	}
+	short := shortName(calleeName)
+	if i := strings.LastIndex(short, "/"); i >= 0 {
+		short = short[i+1:]
+	}
+	for k, ca := range x.con.CallAsserts {
+		if !strings.Contains(calleeName, ca.Callee) {
+			continue
+		}
+		envC := x.callerEnvAt(st)
+		for i := range args {
+			if i < len(ptypes) {
+				envC.vars[fmt.Sprintf("arg%d", i)] = TVal{args[i], ptypes[i]}
+			}
+		}
+		x.oblige(fmt.Sprintf("assert%d.at_call%d(%s)", k+1, x.callN, short), "assert", ca.Src, st.reach, envC.EvalBool(ca.E))
+		x.assertHit[k] = true
+	}
+}
+
+func sigParamTypes(sig *types.Signature, recv types.Type) []types.Type {
+	var out []types.Type
+	if recv != nil {
+		out = append(out, recv)
+	} else if sig.Recv() != nil {
+		out = append(out, sig.Recv().Type())
+	}
+	for i := 0; i < sig.Params().Len(); i++ {
+		out = append(out, sig.Params().At(i).Type())
+	}
+	return out
+}
+
+func init() { _ = os.Getenv }
